@@ -284,6 +284,10 @@ fn open_index(config: &crate::config::Config) -> Result<(bool, Index)> {
         }
     }
 
+    // The index is about to be replaced by an empty one, which must not be
+    // mistaken for a complete one if we are interrupted before it is filled.
+    config.remove_meta()?;
+
     if config.index_path.is_dir() {
         log::info!("removing index: {}", config.index_path.display());
         fs::remove_dir_all(&config.index_path)?;
